@@ -1274,6 +1274,7 @@ impl Property for C26 {
     }
 
     fn check(&self, input: &Input, obs: &mut Obs, env: &Env) -> CheckResult {
+        bytepack_boundaries_round_trip(obs)?;
         let Some(built) = build(&input.shape) else {
             obs.label("empty-skipped");
             return Ok(());
@@ -1792,4 +1793,36 @@ fn meta_strategy() -> impl Strategy<Value = Meta> {
 fn input_strategy() -> impl Strategy<Value = Input> {
     (shape_strategy(), meta_strategy(), any::<u16>(), prop::bool::weighted(0.4), (any::<u16>(), any::<u16>()), prop::collection::vec(any::<u16>(), 0..4))
         .prop_map(|(shape, meta, ctx, v22, sub, cuts)| Input { shape, meta, ctx, v22, sub, cuts })
+}
+
+
+/// The byte packer used for the full-zip repetition index picks 1/2/4/8 bytes from the announced maximum.  The maxima at
+/// which the width changes are a finite set, enumerated completely here with every case (microseconds): what is unpacked
+/// must be what was packed.
+fn bytepack_boundaries_round_trip(obs: &mut Obs) -> CheckResult {
+    use lance_encoding::utils::bytepack::{ByteUnpacker, BytepackedIntegerEncoder};
+    let mut maxima: Vec<u64> = vec![0, 1, 2, u64::MAX - 1, u64::MAX];
+    for k in [8u32, 16, 32] {
+        let b = 1u64 << k;
+        maxima.extend([b - 2, b - 1, b, b + 1]);
+    }
+    for max in maxima {
+        let values: Vec<u64> = vec![0, max / 2, max.saturating_sub(1), max, 1.min(max), max];
+        let mut enc = BytepackedIntegerEncoder::with_capacity(values.len(), max);
+        for v in &values {
+            // SAFETY: every value is <= the announced maximum
+            unsafe { enc.append(*v) };
+        }
+        let data = enc.into_data();
+        if max == 0 {
+            ensure!(data.is_empty(), "bytepack-zero", "maximum 0 produced {} bytes", data.len());
+            continue;
+        }
+        ensure!(data.len() % values.len() == 0 && matches!(data.len() / values.len(), 1 | 2 | 4 | 8), "bytepack-width", "maximum {max}: {} bytes for {} values", data.len(), values.len());
+        let width = data.len() / values.len();
+        let back: Vec<u64> = ByteUnpacker::new(data, width).collect();
+        ensure!(back == values, "bytepack-round-trip", "maximum {max} packed in {width} byte(s): wrote {values:?}, read {back:?}");
+    }
+    obs.inner += 1;
+    Ok(())
 }
